@@ -606,6 +606,24 @@ func checkC19Default(c C19DefaultCase) error {
 	if err != nil {
 		return err
 	}
+	// what a for loop iterates when the defaulted expression is its sequence (also written
+	// without the parentheses where the expression is a plain name)
+	seqs := []string{"(" + c.Expr + ")|default([7, 8])"}
+	if isIdent(c.Expr) {
+		seqs = append(seqs, c.Expr+"|default([7, 8])")
+	}
+	for _, seq := range seqs {
+		loop, err := evalText("{% for q in "+seq+" %}<{{ q is iterable ? 'it' : q }}>{% else %}NONE{% endfor %}", c.Ctx)
+		if err != nil {
+			return err
+		}
+		if c.Empty && loop != "<7><8>" {
+			return fmt.Errorf("for q in %s iterates %s: the value is empty/undefined, the loop must see the default [7, 8]", seq, q(loop))
+		}
+		if !c.Empty && loop == "<7><8>" {
+			return fmt.Errorf("for q in %s iterates the default although the value is not empty", seq)
+		}
+	}
 	if c.Empty {
 		if !jsonEq(got, "DFLT") {
 			return fmt.Errorf("(%s)|default('DFLT') = %s: an empty/undefined value must be replaced", c.Expr, showJ(got))
@@ -620,6 +638,18 @@ func checkC19Default(c C19DefaultCase) error {
 		return fmt.Errorf("(%s)|default('DFLT') = %s but the value %s is not empty", c.Expr, showJ(got), showJ(orig))
 	}
 	return nil
+}
+
+func isIdent(s string) bool {
+	if s == "" {
+		return false
+	}
+	for i, ch := range s {
+		if !(ch == '_' || ch >= 'a' && ch <= 'z' || ch >= 'A' && ch <= 'Z' || i > 0 && ch >= '0' && ch <= '9') {
+			return false
+		}
+	}
+	return s != "null" && s != "true" && s != "false" && s != "none"
 }
 
 func TestC19Default(t *testing.T) {
